@@ -34,6 +34,8 @@ pub enum OpKind {
     Delete,
     Exists,
     SyncDir,
+    /// harness-inserted marker (API call boundaries); `path` holds the label
+    Marker,
 }
 
 impl OpKind {
@@ -41,7 +43,7 @@ impl OpKind {
         match self {
             OpKind::Create => "Create", OpKind::Write => "Write", OpKind::Flush => "Flush",
             OpKind::Terminate => "Terminate", OpKind::AtomicWrite => "AtomicWrite", OpKind::AtomicRead => "AtomicRead",
-            OpKind::OpenRead => "OpenRead", OpKind::Delete => "Delete", OpKind::Exists => "Exists", OpKind::SyncDir => "SyncDir",
+            OpKind::OpenRead => "OpenRead", OpKind::Delete => "Delete", OpKind::Exists => "Exists", OpKind::SyncDir => "SyncDir", OpKind::Marker => "Marker",
         }
     }
 }
@@ -143,6 +145,15 @@ impl VerifDirectory {
     pub fn faults_fired(&self) -> usize {
         self.inner.lock().unwrap().faults.fired
     }
+    /// Insert a marker event (not a storage operation: never failed, never hooked).
+    pub fn mark(&self, label: &str) {
+        let mut g = self.inner.lock().unwrap();
+        let seq = g.log.len();
+        let tid_key = std::thread::current().id();
+        let next = g.tids.len();
+        let tid = *g.tids.entry(tid_key).or_insert(next);
+        g.log.push(Event { seq, tid, kind: OpKind::Marker, path: label.to_string(), data: vec![], accepted: 0, result: "Ok" });
+    }
     pub fn log(&self) -> Vec<Event> {
         self.inner.lock().unwrap().log.clone()
     }
@@ -182,7 +193,7 @@ impl VerifDirectory {
         let tid_key = std::thread::current().id();
         let next = g.tids.len();
         let tid = *g.tids.entry(tid_key).or_insert(next);
-        let failable = kind != OpKind::Exists && (g.faults.kinds.is_empty() || g.faults.kinds.contains(&kind));
+        let failable = kind != OpKind::Exists && kind != OpKind::Marker && (g.faults.kinds.is_empty() || g.faults.kinds.contains(&kind));
         let fail = match g.faults.fail_at {
             Some(k) if failable => seq == k || (g.faults.permanent && seq > k),
             _ => false,
